@@ -63,6 +63,12 @@ func c03Lines(word string) []string {
 	for i, c := range word {
 		if c == 'M' {
 			ls = append(ls, fmt.Sprintf("x%d M y", i))
+		} else if c == 'R' {
+			ls = append(ls, fmt.Sprintf("x%d M y\r", i)) // a line of a CRLF file: the CR is content
+		} else if c == 'E' {
+			ls = append(ls, "") // an empty line
+		} else if c == 'C' {
+			ls = append(ls, "\r") // an empty line of a CRLF file
 		} else {
 			ls = append(ls, fmt.Sprintf("x%d UMy", i)) // an 'M' without blanks around it
 		}
@@ -264,6 +270,49 @@ func c03Compress(w string) string {
 	return strings.TrimSpace(sb.String())
 }
 
+// c03RunCR: lines ending in a carriage return (CRLF files) and empty lines, with patterns that look at the line end.
+func c03RunCR(c *Ctx, word string) {
+	var sb strings.Builder
+	for _, l := range c03Lines(word) {
+		sb.WriteString(l + "\n")
+	}
+	path := WriteScratch("c03/cr-"+word+".txt", sb.String())
+	res := vrt.Run(vrt.Config{MaxSteps: 5000000, Horizon: 100 * time.Hour}, func() {
+		args := DefaultArgs()
+		args.Logger = "none"
+		args.LogLevel = "error"
+		StartEnv(source.Server, &args, nil)
+		for _, pat := range []string{"y$", "^$", "\\r$", "\\r", "\\s$", "^.{6}$", "M y$", "[^y]$", "^\\r?$"} {
+			for _, inv := range []bool{false, true} {
+				for _, ltx := range [][3]int{{0, 0, 0}, {1, 0, 0}, {0, 1, 1}, {1, 1, 2}} {
+					c03Check(c, path, c03Case{Word: word, Pattern: pat, Invert: inv, Before: ltx[0], After: ltx[1], Max: ltx[2]})
+				}
+			}
+		}
+	})
+	if res.Fail != nil {
+		c.Violation("reader-failure-"+res.Fail.Kind, fmt.Sprintf("word %q: %v", word, res.Fail), map[string]string{"word": word})
+	}
+}
+
+// c03CRWords: all words of length <= 4 over {M, R (CR-terminated), E (empty), C (CR only)} that contain a CR line.
+func c03CRWords() (out []string) {
+	var rec func(cur string)
+	rec = func(cur string) {
+		if strings.ContainsAny(cur, "RC") {
+			out = append(out, cur)
+		}
+		if len(cur) == 4 {
+			return
+		}
+		for _, l := range "MREC" {
+			rec(cur + string(l))
+		}
+	}
+	rec("")
+	return
+}
+
 func c03LongWords() []string {
 	u := func(n int) string { return strings.Repeat("U", n) }
 	return []string{u(150) + "M", "M" + u(150), u(99) + "M" + u(120) + "M" + u(5), u(101) + "MM" + u(101) + "M", "M" + u(100) + "M" + u(100) + "M", u(260) + "M" + u(140)}
@@ -273,7 +322,7 @@ func init() {
 	Register(&Check{
 		ID:    "C03",
 		Level: "exploration",
-		Rule: "files are all words over {matching line, non-matching line} up to length 8 (quick) / 11 (thorough), plus 6 files of 150-400 lines (longer than the reader's internal queues of 100) with before in {0,99,100,101,120,250} x after in {0,1,100,101,130} x max in {0,1,2}; for each word the full product " +
+		Rule: "files are all words over {matching line, non-matching line} up to length 8 (quick) / 11 (thorough), plus all files of <=4 lines over {matching, CR-terminated, empty, CR-only} with 9 line-end-sensitive patterns, plus 6 files of 150-400 lines (longer than the reader's internal queues of 100) with before in {0,99,100,101,120,250} x after in {0,1,100,101,130} x max in {0,1,2}; for each word the full product " +
 			"before x after x max in {0,1,2,3,9}^3 x invert, plus 20 further patterns (anchored at one or both ends incl. whole-line literals, a class, flags, alternation, the no-op spellings '', '.', '.*', patterns with leading/trailing blanks) on 6 contexts; the real CatFile reader " +
 			"(regex passed through Serialize/Deserialize as on the wire) runs under the controlled scheduler and is compared with the reference selector of the statement; " +
 			"non-trivial = expected output is neither empty nor the whole file",
@@ -289,6 +338,11 @@ func init() {
 			for _, w := range c03LongWords() {
 				if c.Mine() && !c.Expired() {
 					c03RunLong(c, w)
+				}
+			}
+			for _, w := range c03CRWords() {
+				if c.Mine() && !c.Expired() {
+					c03RunCR(c, w)
 				}
 			}
 			for _, w := range c03Words(n) {
